@@ -291,6 +291,190 @@ Section Claims.
   Qed.
 End Claims.
 
+(* ------------------------------------------------------------------------------------------ *)
+(** * The block filter and same-block second stage *)
+
+Section Block.
+  Variable H : bytes -> bytes.
+
+  (** the child loop looks at EVERY input: the position of the input that spends an earlier matched
+      transaction does not matter *)
+  Lemma child_loop_spec matched : forall ins m,
+    child_loop matched ins m =
+    m || existsb (fun inp : Z * Z * Z => existsb (fun t => t =? fst (fst inp)) matched) ins.
+  Proof.
+    induction ins as [|inp tl IH]; intros m; cbn [child_loop existsb].
+    - rewrite orb_false_r. reflexivity.
+    - destruct m; [reflexivity|]. rewrite IH. reflexivity.
+  Qed.
+
+  Definition relevant (watched : list outpoint) (matched : list Z) (tx : stx) : bool :=
+    spends_watched watched (s_ins tx) ||
+    existsb (fun inp : Z * Z * Z => existsb (fun t => t =? fst (fst inp)) matched) (s_ins tx).
+
+  Lemma filter_block_unfold watched matched tx tl :
+    filter_block watched matched (tx :: tl) =
+    if relevant watched matched tx then tx :: filter_block watched (s_txid tx :: matched) tl
+    else filter_block watched matched tl.
+  Proof. cbn [filter_block]. rewrite child_loop_spec. reflexivity. Qed.
+
+  (** a transaction with an input (anywhere) spending an earlier matched transaction is relevant *)
+  Lemma relevant_child watched matched tx inp :
+    In inp (s_ins tx) -> In (fst (fst inp)) matched -> relevant watched matched tx = true.
+  Proof.
+    intros Hin Hm. unfold relevant. apply orb_true_iff. right.
+    apply existsb_exists. exists inp. split; [exact Hin|].
+    apply existsb_exists. exists (fst (fst inp)). split; [exact Hm|apply Z.eqb_refl].
+  Qed.
+
+  Definition spends_tx (ctxid : Z) (tx : stx) : bool :=
+    existsb (fun inp : Z * Z * Z => fst (fst inp) =? ctxid) (s_ins tx).
+
+  (** [U]: every txid that could make a transaction a "child" in this block; the transactions that
+      do not spend the commitment are unrelated: they spend nothing watched and nothing of [U] *)
+  Definition unrelated (watched : list outpoint) (U : list Z) (tx : stx) : Prop :=
+    spends_watched watched (s_ins tx) = false /\
+    forall inp, In inp (s_ins tx) -> ~ In (fst (fst inp)) U.
+
+  Lemma relevant_unrelated watched U matched tx :
+    (forall x, In x matched -> In x U) -> unrelated watched U tx -> relevant watched matched tx = false.
+  Proof.
+    intros Hsub [Hw Hno]. unfold relevant. rewrite Hw. cbn [orb].
+    destruct (existsb _ (s_ins tx)) eqn:E; [|reflexivity]. exfalso.
+    apply existsb_exists in E. destruct E as (inp & Hin & E).
+    apply existsb_exists in E. destruct E as (t & Ht & E). apply Z.eqb_eq in E. subst t.
+    apply (Hno inp Hin). apply Hsub. exact Ht.
+  Qed.
+
+  (** after the commitment was matched, the filter keeps exactly the transactions that spend it,
+      whatever the position of the spending input and whatever else they spend *)
+  Lemma filter_block_after_commitment watched U ctxid : forall S matched,
+    In ctxid matched -> (forall x, In x matched -> In x U) ->
+    (forall t, In t S -> In (s_txid t) U) ->
+    (forall t, In t S -> spends_tx ctxid t = false -> unrelated watched U t) ->
+    filter_block watched matched S = filter (spends_tx ctxid) S.
+  Proof.
+    induction S as [|t S IH]; intros matched Hc Hsub HU Hun; [reflexivity|].
+    rewrite filter_block_unfold. cbn [filter].
+    destruct (spends_tx ctxid t) eqn:Es.
+    - unfold spends_tx in Es. apply existsb_exists in Es. destruct Es as (inp & Hin & E).
+      apply Z.eqb_eq in E.
+      rewrite (relevant_child watched matched t inp Hin) by (rewrite E; exact Hc).
+      f_equal. apply IH.
+      + right. exact Hc.
+      + intros x [<-|Hx]; [apply HU; left; reflexivity|apply Hsub; exact Hx].
+      + intros t' Ht'. apply HU. right. exact Ht'.
+      + intros t' Ht'. apply Hun. right. exact Ht'.
+    - rewrite (relevant_unrelated watched U matched t Hsub (Hun t (or_introl eq_refl) Es)).
+      apply IH; try assumption.
+      + intros t' Ht'. apply HU. right. exact Ht'.
+      + intros t' Ht'. apply Hun. right. exact Ht'.
+  Qed.
+
+  (** ** Tracking over transactions with any number of inputs *)
+
+  Lemma track_known m k ctxid claims tx sec : get_secret H (m_secrets m) k = Some sec ->
+    track H m k ctxid claims tx =
+    filter (fun op => negb (spends tx op)) claims ++ second_stage_outs ctxid (s_txid tx) (s_nout tx) 0 (s_ins tx).
+  Proof. intros Hs. unfold track, justice_htlc. rewrite Hs. reflexivity. Qed.
+
+  Definition second_stage (ctxid : Z) (tx : stx) : list outpoint :=
+    second_stage_outs ctxid (s_txid tx) (s_nout tx) 0 (s_ins tx).
+
+  Lemma filter_filter {A} (f g : A -> bool) l : filter f (filter g l) = filter (fun x => g x && f x) l.
+  Proof.
+    induction l as [|x l IH]; [reflexivity|]. cbn [filter]. destruct (g x); cbn [filter andb]; [|exact IH].
+    destruct (f x); [f_equal|]; exact IH.
+  Qed.
+
+  Lemma filter_id {A} (f : A -> bool) l : (forall x, In x l -> f x = true) -> filter f l = l.
+  Proof.
+    induction l as [|x l IH]; intros Hall; [reflexivity|]. cbn [filter].
+    rewrite (Hall x (or_introl eq_refl)). f_equal. apply IH. intros y Hy. apply Hall. right. exact Hy.
+  Qed.
+
+  (** For ANY list [S] of transactions (any number of inputs each, HTLC inputs at any position,
+      extra fee inputs anywhere) none of which spends a second-stage output of another: after all of
+      them, what is tracked is the claims none of them spent, plus every second-stage output. *)
+  Lemma track_all m k ctxid sec : get_secret H (m_secrets m) k = Some sec ->
+    forall (S : list stx) claims,
+    (forall t t' op, In t S -> In t' S -> In op (second_stage ctxid t) -> spends t' op = false) ->
+    fold_left (track H m k ctxid) S claims =
+    filter (fun op => negb (existsb (fun t => spends t op) S)) claims ++ flat_map (second_stage ctxid) S.
+  Proof.
+    intros Hs. induction S as [|t S IH]; intros claims Hind; cbn [fold_left flat_map existsb].
+    - rewrite app_nil_r. symmetry. apply filter_id. reflexivity.
+    - rewrite (track_known m k ctxid claims t sec Hs). fold (second_stage ctxid t).
+      rewrite IH by (intros a b op Ha Hb; apply Hind; right; assumption).
+      rewrite filter_app, filter_filter, <- app_assoc. f_equal.
+      + apply filter_ext. intros op. destruct (spends t op); reflexivity.
+      + f_equal. apply filter_id. intros op Hop.
+        destruct (existsb (fun t0 => spends t0 op) S) eqn:E; [|reflexivity]. exfalso.
+        apply existsb_exists in E. destruct E as (t' & Ht' & E).
+        rewrite (Hind t t' op (or_introl eq_refl) (or_intror Ht') Hop) in E. discriminate.
+  Qed.
+
+  (** which outpoints a multi-input transaction yields: input [i] (0-based, ANY position) spending
+      the commitment with a 5-element witness, if the transaction has an output [i] *)
+  Lemma second_stage_outs_spec ctxid htxid nout : forall ins i0 op,
+    In op (second_stage_outs ctxid htxid nout i0 ins) <->
+    exists j : nat, (j < List.length ins)%nat /\ op = (htxid, i0 + Z.of_nat j) /\
+      fst (fst (nth j ins (0, 0, 0))) = ctxid /\ snd (nth j ins (0, 0, 0)) = 5 /\ i0 + Z.of_nat j < nout.
+  Proof.
+    induction ins as [|[[p q] w] ins IH]; intros i0 op; cbn [second_stage_outs List.length].
+    - split; [intros []|intros (j & Hj & _); lia].
+    - rewrite in_app_iff, IH. split.
+      + intros [Hin|(j & Hj & -> & Hp & Hw & Hn)].
+        * destruct (Z.eqb_spec p ctxid) as [->|]; [|destruct Hin].
+          destruct (Z.eqb_spec w 5) as [->|]; [|destruct Hin].
+          destruct (Z.ltb_spec i0 nout); [|destruct Hin]. destruct Hin as [<-|[]].
+          exists 0%nat. cbn [nth fst snd]. repeat split; try lia. f_equal. lia.
+        * exists (S j). cbn [nth]. repeat split; try lia; try assumption. f_equal. lia.
+      + intros (j & Hj & -> & Hp & Hw & Hn). destruct j as [|j].
+        * left. cbn [nth fst snd] in *. subst p w. rewrite !Z.eqb_refl.
+          destruct (Z.ltb_spec i0 nout); [|lia]. left. f_equal. lia.
+        * right. exists j. cbn [nth] in *. repeat split; try lia; try assumption. f_equal. lia.
+  Qed.
+
+  (** ** Same-block delivery
+
+      The block holds the revoked commitment [C] (spending the watched funding outpoint) followed,
+      in ANY order, by cheater transactions spending its outputs (inputs in any position, extra
+      inputs allowed) and by unrelated transactions. Although the commitment's outputs were not
+      watched when the block arrived, every one of the cheater's transactions is seen, and the
+      tracked claims at the end of the block are: the justice claims none of them spent, plus all
+      their second-stage outputs. *)
+  Theorem same_block_second_stage m watched funding (tx : ctx) sec (C : stx) (S : list stx) (U : list Z) :
+    get_min_seen_secret (m_secrets m) <= t_number tx ->
+    get_secret H (m_secrets m) (t_number tx) = Some sec ->
+    s_txid C = t_txid tx -> spends_outpoint funding (s_ins C) = true ->
+    spends_watched watched (s_ins C) = true ->
+    In (t_txid tx) U -> (forall t, In t S -> In (s_txid t) U) ->
+    (forall t, In t S -> spends_tx (t_txid tx) t = false -> unrelated watched U t) ->
+    (forall t t' op, In t S -> In t' S -> In op (second_stage (t_txid tx) t) -> spends t' op = false) ->
+    process_block H m watched funding tx false [] (C :: S) =
+    (true,
+     filter (fun op => negb (existsb (fun t => spends t op) (filter (spends_tx (t_txid tx)) S))) (justice H m tx)
+     ++ flat_map (second_stage (t_txid tx)) (filter (spends_tx (t_txid tx)) S)).
+  Proof.
+    intros Hmin Hsec HC Hf Hw HU HSU Hun Hind. unfold process_block.
+    rewrite filter_block_unfold. unfold relevant. rewrite Hw. cbn [orb].
+    rewrite (filter_block_after_commitment watched U (t_txid tx) S [s_txid C]).
+    - cbn [scan negb andb]. rewrite Hf, HC, Z.eqb_refl. cbn [andb].
+      set (S' := filter (spends_tx (t_txid tx)) S).
+      assert (Hscan : forall l claims, scan H m funding tx true claims l =
+                      (true, fold_left (track H m (t_number tx) (t_txid tx)) l claims)).
+      { induction l as [|t l IH]; intros claims; [reflexivity|]. cbn [scan negb andb fold_left]. apply IH. }
+      rewrite Hscan. f_equal. apply (track_all m (t_number tx) (t_txid tx) sec Hsec).
+      intros t t' op Ht Ht' Hop. unfold S' in *. apply filter_In in Ht. apply filter_In in Ht'.
+      apply (Hind t t' op); tauto.
+    - left. exact HC.
+    - intros x [<-|[]]. rewrite HC. exact HU.
+    - exact HSU.
+    - exact Hun.
+  Qed.
+End Block.
+
 (** ** Everything together: any revoked commitment of any history *)
 Section Together.
   Variable H : bytes -> bytes.
